@@ -2,6 +2,11 @@ import UtilModel.Spec.SizeJson
 import UtilModel.Lemmas.SizeObject
 /-!
 # The abstract object semantics `evalMembers`: order-free characterisation, permutations, defects
+
+`evalLoop_ok_iff`/`evalMembers_ok_iff` (success ⇔ `Denotes`, which does not mention order),
+`Denotes.perm`, `evalMembers_perm_ok`/`_err`, `evalMembers_err_iff` (rejection ⇔ `Defect`),
+`evalLoop_eq_newSize`/`evalMembers_object_value`, `evalMembers_delete_unknown`/`_insert_unknown`,
+`evalLoop_tooBig_iff`, `evalLoop_unlimited`.
 -/
 namespace U.Props.C12
 open U U.Size U.SizeObject
